@@ -236,6 +236,42 @@ def sharded_info(triple, enc, idx_enc, size):
                                      "data_encoding": enc, "preshift_bits": p}}]}
 
 
+def local_locate(ds, key, co):
+    """What the local shard reader computes for a chunk: the (offset, length) of its final
+    read_bytes call, or the class of the error raised before it (the model's [locate])."""
+    import zlib
+    from neuroglancer_scripts import sharded_file_accessor as sfa
+    calls = []
+    orig = sfa.Shard.read_bytes
+
+    def spy(self, offset, length):
+        calls.append((int(offset), int(length)))
+        return orig(self, offset, length)
+    sfa.Shard.read_bytes = spy
+    try:
+        try:
+            sfa.ShardedFileAccessor(ds).fetch_chunk(key, tuple(co))
+        except zlib.error:
+            pass
+        except Exception as exc:  # noqa: BLE001
+            c = classify_exception(exc)
+            return Atom("IOErr") if c == ["IOErr"] else [Atom("Crash"), Atom(c[1])]
+    finally:
+        sfa.Shard.read_bytes = orig
+    return [Atom("ok"), calls[-1][0], calls[-1][1]]
+
+
+def decode_model(m_out, enc):
+    """The model's data decoder is the identity: apply the dataset's data encoding."""
+    import zlib
+    if str(m_out[0]) == "ok" and enc == "gzip":
+        try:
+            return [Atom("ok"), [Atom("plain"), zlib.decompress(m_out[1][1])]]
+        except zlib.error:
+            return [Atom("Crash"), Atom("ZlibError")]
+    return m_out
+
+
 def split_legacy(scale_dir, hl):
     for f in os.listdir(scale_dir):
         if f.endswith(".shard"):
@@ -253,7 +289,6 @@ def sharded_part(R, n):
     from neuroglancer_scripts.sharded_http_accessor import ShardedHttpAccessor
     rng = R.rng
     reqs, pend = [], []
-    known = {f["id"] for f in R.findings}
     for i in range(n):
         root = os.path.join(R.tmp, f"shsite{i}")
         ds = os.path.join(root, "ds")
@@ -321,20 +356,16 @@ def sharded_part(R, n):
                 case = {**case0, "chunk": co, "stored": tuple(co) in content}
                 R.case(case, nontrivial=len(stored) >= 2)
                 R.count(f"sharded:fetch:{h[0] if h[0] != 'Crash' else h[1]}")
+                wloc = local_locate(ds, "1mm", co)
                 if idx_enc == "raw":
-                    reqs.append(("hs_fetch", [sc, [], tree, False, b(scale_url), b(name), hl, cmc, Atom("IOErr")]))
-                    pend.append(("hs", case, h, list(site.log), origin, None))
-                # oracle: HTTP == local
+                    reqs.append(("hs_fetch", [sc, [], tree, b(scale_url), b(name), hl, cmc, wloc]))
+                    pend.append(("hs", case, h, list(site.log), origin, enc))
+                # oracle: HTTP == local (two different error classes are both "errors": accepted)
                 if h != loc and (h[0] == "ok" or loc[0] == "ok"):
-                    # (two different error classes are both "errors": accepted for sharded datasets)
-                    # region of the finding: the shard was found and its index read (the log holds GETs),
-                    # then fetch_cmc_chunk's assertion on the never-filled dictionary fails
-                    in_region = (h == ["Crash", "AssertionError"] and any(e[0] == "GET" for e in site.log))
-                    if in_region and "sharded-http-minishard-dict" in known:
-                        R.known("sharded-http-minishard-dict")
-                    else:
-                        R.violation("sharded chunk fetched over HTTP differs from the local accessor's", case,
-                                    {"http": h12._short(h), "local": h12._short(loc)})
+                    R.violation("sharded chunk fetched over HTTP differs from the local accessor's", case,
+                                {"http": h12._short(h), "local": h12._short(loc)})
+                elif h[0] != "ok" and tuple(co) in content:
+                    R.violation("a stored sharded chunk cannot be fetched over HTTP", case, {"http": h12._short(h)})
                 elif loc[0] == "ok" and tuple(co) in content and loc[1] != content[tuple(co)]:
                     R.violation("local sharded read differs from what was stored", case, {})
                 # scripted behaviours
@@ -351,14 +382,14 @@ def sharded_part(R, n):
                         R.count(f"sharded:scripted:{beh if isinstance(beh, str) else beh[1]}:"
                                 f"{h2[0] if h2[0] != 'Crash' else h2[1]}")
                         if idx_enc == "raw":
-                            reqs.append(("hs_fetch", [sc, wire_script(script), tree, False, b(scale_url), b(name), hl,
-                                                      cmc, Atom("IOErr")]))
-                            pend.append(("hs", c2, h2, list(site.log), origin, None))
+                            reqs.append(("hs_fetch", [sc, wire_script(script), tree, b(scale_url), b(name), hl,
+                                                      cmc, wloc]))
+                            pend.append(("hs", c2, h2, list(site.log), origin, enc))
                         # oracle: never data that differs from the local read
                         if h2[0] == "ok" and h2 != loc:
                             R.violation("server misbehaviour turned into wrong data", c2, {"http": h12._short(h2)})
     rep = R.model.batch(reqs)
-    for (kind, case, impl, log, origin, _), m in zip(pend, rep):
+    for (kind, case, impl, log, origin, enc), m in zip(pend, rep):
         if kind == "dispatch":
             d = m[1] if str(m[0]) == "remote" else None
             if d is None:
@@ -375,8 +406,9 @@ def sharded_part(R, n):
                 R.disagree("get_accessor_for_url (http, sharded) vs model", case, [impl, log], [mres, want])
         else:
             ok, want = log_matches(m[1], log, origin)
-            if not bout_matches(m[0], impl) or not ok:
-                R.disagree("HttpShard fetch vs model", case, [h12._short(impl), log], [h12._short(m[0]), want])
+            mo = decode_model(m[0], enc)
+            if not bout_matches(mo, impl) or not ok:
+                R.disagree("HttpShard fetch vs model", case, [h12._short(impl), log], [h12._short(mo), want])
 
 
 # ----------------------------------------------------------------- dispatch / URL normalisation
@@ -386,7 +418,6 @@ def dispatch_part(R, n):
     from neuroglancer_scripts.http_accessor import HttpAccessor
     from neuroglancer_scripts.sharded_http_accessor import ShardedHttpAccessor
     rng = R.rng
-    known = {f["id"] for f in R.findings}
     # base URL normalisation, offline
     urls = ["http://h/a", "http://h/a/", "http://h/a?q=1#f", "https://h:8/a/b", "HTTP://H/a", "http://h", "http://h/",
             "http://h?x", "http://h#f", "http://u:p@h/a", "http:/a", "http:a", "http://h/a b", "http://h//a//",
@@ -400,11 +431,10 @@ def dispatch_part(R, n):
         R.count(f"http_init:{impl[0] if impl[0] != 'Crash' else impl[1]}")
         if impl != mo:
             R.disagree("HttpAccessor.__init__ base_url vs model", case, impl, mo)
-        if impl == ["Crash", "IndexError"]:
-            if "http-empty-path" in known and urllib_path(u) == "":
-                R.known("http-empty-path")
-            else:
-                R.violation("HttpAccessor construction raised IndexError", case, {})
+        if impl[0] != "ok":
+            R.violation("HttpAccessor construction failed on an http(s) URL", case, {"impl": impl})
+        elif not impl[1].endswith(b"/"):
+            R.violation("base URL not normalised to end with a slash", case, {"impl": impl})
     # dispatch over info variants
     variants = h12.info_variants()
     reqs, pend = [], []
